@@ -370,7 +370,9 @@ def judge(fs, op, res):
         if base in SPECIAL:
             return expect(FAIL, got_ok, "remove of '', '.' or '..'")
         if parent is None:
-            return expect(FAIL, got_ok, "remove below a missing path")
+            # os.RemoveAll: "if the path does not exist, RemoveAll returns nil"; a path through a file is
+            # an error in Go's os package but "does not exist" in a plain model: not decided by the text
+            return expect(EITHER if kind == "removeall" else FAIL, got_ok, "remove below a missing path")
         node = parent.kids.get(base)
         if node is None:
             return expect(OK if kind == "removeall" else FAIL, got_ok, "remove of a missing path")
